@@ -623,7 +623,7 @@ def expected_ctor_plan(rec: dict) -> Tuple[List[str], Dict[str, str], bool]:
     return pos, kw, packed
 
 
-DEFAULT_EXPECT = {"DV": "7", "DVN": "None", "DF": "[]"}
+DEFAULT_EXPECT = {"DV": "7", "DVN": "None", "DF": "[]", "DVM": "[[0, 0], {'k': []}]"}
 
 
 def c08_checks(repo: Repo, tier: str, res: CheckResult, seed: int) -> int:
@@ -916,6 +916,33 @@ def c20_checks(repo: Repo, tier: str, res: CheckResult, seed: int) -> None:
                     res.add(_gen_finding("C20", "PURE.generated-argument-mutation", prog, f.line, f.construct,
                                          f.message.split(":")[0]))
             ns = prog.rec["namespace"]
+            # module-level helpers of the repository the program hands its values to: what do they modify in place?
+            t_prog = _c20.tainted_names(prog.fn, {"data"})
+            exc_names = {h.name for h in ast.walk(prog.fn) if isinstance(h, ast.ExceptHandler) and h.name}
+            for c in ast.walk(prog.fn):
+                if not (isinstance(c, ast.Call) and isinstance(c.func, ast.Name) and c.func.id in ns):
+                    continue
+                dotted = ns[c.func.id].get("callable") or ""
+                if not dotted.startswith("adaptix.") or ns[c.func.id]["type"] != "builtins.function":
+                    continue
+                mod_name, _, fname = dotted.rpartition(".")
+                hm = repo.modules.get(mod_name) or next((mm for mm in repo.modules.values()
+                                                         if mm.rel == mod_name.replace(".", "/") + ".py"), None)
+                hfn = next((x for x in hm.tree.body if isinstance(x, ast.FunctionDef) and x.name == fname), None) if hm else None
+                if hfn is None:
+                    continue    # a closure (field loader/dumper stub): not a module-level helper
+                modes_ = {}
+                for pname, a in zip(_c20.func_params(hfn), c.args):
+                    if _c20._derives_from(a, t_prog):
+                        modes_[pname] = "tainted"
+                    elif isinstance(a, ast.Name) and a.id not in exc_names and a.id not in ns:
+                        modes_[pname] = "holder"     # a local built by the program: its elements come from the argument
+                res.evaluated(f"G:helper:{prog.ident}:{fname}", True)
+                for node, what, where in _c20.helper_mutations(repo, hm, hfn, modes_):
+                    res.add(Finding("C20", "PURE.helper-argument-mutation", hm.rel, where, norm(node)[:100],
+                                    f"generated model {kind} ({prog.ident}) calls `{norm(c)[:60]}`; the helper performs a {what} on an "
+                                    f"object taken out of its argument: values dumped/loaded as is (Any, dict[str, Any], extras) are the "
+                                    f"caller's own containers, so the {kind} modifies its argument", getattr(node, "lineno", 0)))
             shared = {k for k, v in ns.items() if v["type"] in ("builtins.set", "builtins.dict", "builtins.list")}
             for c in ast.walk(prog.fn):
                 if isinstance(c, ast.Call) and isinstance(c.func, ast.Attribute) and c.func.attr in _MUT \
@@ -928,6 +955,23 @@ def c20_checks(repo: Repo, tier: str, res: CheckResult, seed: int) -> None:
                         res.add(_gen_finding("C20", "FRESH.generated-shared-constant-mutated", prog, c.lineno, norm(c),
                                              f"`{norm(c)}` stores into a container of the closure's namespace"))
             if kind == "loader":
+                mutable = {k for k, v in ns.items() if v["type"] in ("builtins.set", "builtins.dict", "builtins.list", "builtins.bytearray")}
+                for fid, ds in S.defaults.items():
+                    for d in set(ds):
+                        try:
+                            tree = ast.parse(d, mode="eval").body
+                        except SyntaxError:
+                            continue
+                        deep = {id(c.args[0]) for c in ast.walk(tree) if isinstance(c, ast.Call) and c.args
+                                and norm(c.func).split(".")[-1] == "deepcopy"}
+                        for nm in ast.walk(tree):
+                            if isinstance(nm, ast.Name) and nm.id in mutable and id(nm) not in deep:
+                                how = "handed out as is" if d == nm.id else f"copied one level deep by `{d}`"
+                                res.add(_gen_finding("C20", "FRESH.generated-default-shared", prog, 0,
+                                                     f"default {d}".replace(fid, "F"),
+                                                     f"field `{fid}`: the default on the absent path is the namespace container "
+                                                     f"`{nm.id}` ({ns[nm.id]['repr'][:40]}), created once, {how}: the (nested) containers "
+                                                     "of one loaded object are the containers of the next"))
                 for var, init in S.extra_inits.items():
                     ok = init == "{}" or (init.startswith("[") and set(init) <= set("[]{}, None"))
                     if not ok:
